@@ -315,6 +315,9 @@ class Run:
             ev += grounds
             per_group.append(dict(scenario=g['scen'], variant=g['variant'], mode=g['mode'], processes=g['procs'],
                                   rounds_run=grounds, params=g.get('params', {}), strategy=g.get('strategy', 'mix')))
+        evk = getattr(self, 'evaluations_from', None)
+        if evk and counters.get(evk):
+            ev = int(counters[evk])
         present = build.count_atm_sites()
         hit = set(sites)
         cov = dict(evaluations=ev, distinct_nontrivial=len(nt_hashes), rule=rule, samples=samples,
@@ -435,6 +438,7 @@ def main(argv):
             return spec['custom'](a.prop, a.tier, seed, a.scale)
         plan = plans.expand(a.prop, a.tier, a.scale)
         run = Run(a.prop, a.tier, seed, plan)
+        run.evaluations_from = spec.get('evaluations_from')
         run.execute()
         return finish(run, spec.get('level', 'exploration'), spec['rule'], spec.get('assumptions', ()), spec.get('floor'))
     except build.BuildError as ex:
